@@ -12,11 +12,11 @@ Here is a behavioural property that users of the library rely on:
 
 Your task: produce a realistic change to gotd/td's NON-TEST source that BREAKS this property while
  (1) the code still compiles (`go build ./...`),
- (2) the existing test-suite still passes — run at least the packages you touched and the packages that depend on them, ideally everything: `go test -vet=off -count=1 -timeout 25m ./...` (about 4 minutes), and
+ (2) the existing test-suite still passes — the machine is shared and heavily loaded, so run the tests of the packages you touched and of the packages that import them (find them with `go list -f '{{{{.ImportPath}}}} {{{{.Imports}}}}' ./... | grep <pkg>`), with `go test -p 4 -vet=off -count=1 -timeout 25m <pkgs>`; the full suite will be re-run by someone else later, so be honest about what you ran. Timing-sensitive tests may flake under load: re-run a failing package once before concluding your change caused it, and
  (3) the breakage needs something specific to manifest — a particular interleaving, a crash or fault at a particular point, a multi-step sequence of operations, an unusual input or boundary value, or two cooperating sites that each look fine alone — NOT something ordinary use would expose at once.
 It should look like a bug a refactoring, optimisation or "simplification" could plausibly introduce (off-by-one in a bound, dropped or reordered check, wrong variable, lost update, missing unlock path, changed constant, …). Do not edit tests, files whose name starts with `verif_`, or files with a `//go:build verif` tag. Keep the patch small.
 
-Give a demonstration: a Go test file (or small program) that FAILS with your change and PASSES without it. Verify both directions yourself (e.g. `git stash` / `git stash pop`).
+Give a demonstration: a Go test file (or small program) that FAILS with your change and PASSES without it. Verify both directions yourself with `git diff > /tmp/mut/{pid}-out/wip.diff; git apply -R /tmp/mut/{pid}-out/wip.diff; <run demo>; git apply /tmp/mut/{pid}-out/wip.diff` — NEVER use `git stash` (the stash is shared with other people's worktrees of the same repository and will swap changes between them).
 
 Write your results to /tmp/mut/{pid}-out/:
  - patch1.diff  : `git diff` of the non-test source change only (relative to HEAD; must apply with `git apply` at the repository root)
